@@ -408,6 +408,26 @@ theorem codec_options (c : LocalCfg) (s : PeerState) (o : Open) :
       (recvOpts s').use2ByteAs = s'.twoByteAs ∧ (recvOpts s').extended = s'.extMsg :=
   ⟨rfl, rfl, rfl, rfl⟩
 
+/-- **the negotiated ADD-PATH mode is consumed bit by bit**: under the options the receive path hands
+    to the parsers, NLRI of family `f` are expected to carry path identifiers iff RECEIVE was negotiated
+    for `f`; under the options of the send path they are written iff SEND was negotiated — for every
+    negotiated mode (none / receive / send / both) and for families that are not negotiated at all. -/
+theorem addpath_consumed (c : LocalCfg) (s : PeerState) (o : Open) (f : Family) :
+    let s' := stateChange c s o
+    (expectsPathId (recvOpts s') true f = true ↔ NegRecv s' f) ∧
+    (expectsPathId (sendOpts s') false f = true ↔ NegSend s' f) := by
+  intro s'
+  unfold expectsPathId NegRecv NegSend recvOpts sendOpts
+  simp only [if_true, Bool.false_eq_true, if_false]
+  cases h : fmLookup s'.familyMap f with
+  | none => simp [hasRecv, hasSend]
+  | some m => simp
+
+example : expectsPathId (recvOpts (stateChange { (default : LocalCfg) with afs := [⟨ipv4uc, false, 8, false, false, 0⟩] } default
+    { (default : Open) with params := [.caps [.addPath [(ipv4uc, 3)]]] })) true ipv4uc = false ∧
+  expectsPathId (sendOpts (stateChange { (default : LocalCfg) with afs := [⟨ipv4uc, false, 8, false, false, 0⟩] } default
+    { (default : Open) with params := [.caps [.addPath [(ipv4uc, 3)]]] })) false ipv4uc = true := by decide
+
 /-! ## the peer's real AS and the peer type -/
 
 /-- **the real remote AS**: the value of the (last) 4-octet-AS capability, else the 2-octet field;
